@@ -18,12 +18,13 @@ FULL STATEMENT (what the property asks of the routing tables):
         s ∈ born tables mode top (effLeaf tables top path) (leaf root path) →
         conforming top (routePath tables mode top root path s) = true
 
-It is FALSE on today's tree — `C03_routing_full_false` gives three concrete
+It is FALSE on today's tree — `C03_routing_full_false` gives four concrete
 paths (they are the catalogued findings C03-inner-parser-argerr,
-C03-help-parser-exits and C03-type-import-path; each was first read off the
-model and then reproduced on the real code, see known_findings.d/C03.json).
-`C03_routing` is the partial theorem: every designed failure on every call path
-of any depth either conforms or carries the tag of one of these three origins.
+C03-help-parser-exits, C03-type-import-path and C03-default-config-argerr; the
+first three were read off the model and then reproduced on the real code, see
+known_findings.d/C03.json).  `C03_routing` is the partial theorem: every
+designed failure on every call path of any depth either conforms or carries the
+tag of one of these four origins (`Tag`).
 -/
 import Jap.Core.ExcFlow
 import Jap.Lemmas.ExcFlow
@@ -123,7 +124,7 @@ from a root region of the method to a region, and every failure that region is
 designed to raise: what the caller of the method sees is `ArgumentError`
 (exit_on_error false) or exit status 2 (true) — or status 0 / nothing for help,
 print_config and absorbed failures — unless the signal carries the tag of one
-of the three catalogued origins. -/
+of the four catalogued origins. -/
 theorem C03_routing (top : Bool) (mode : Mode) (m : Method) (root : Region) (hroot : root ∈ roots m)
     (path : List Region) (hpath : chain root path = true)
     (s : Sig) (hs : s ∈ born tables mode top (effLeaf tables top path) (leaf root path)) :
@@ -165,8 +166,15 @@ def witnessType : Outcome :=
   routePath tables .yaml false (.body .parseArgs) [.knownArgs, .typehintAction, .checkType, .adapt, .typeImport]
     (.exc .ModuleNotFoundError .typeImport)
 
+/-- a default config file whose sub-command value is not hashable, on a parser that exits: get_defaults
+turns the TypeError of _parse_common into ArgumentError itself (finding C03-default-config-argerr) -/
+def witnessDefault : Outcome :=
+  routePath tables .yaml true (.body .parseArgs) [.defaultsEnv, .getDefaults, .defCommon, .subcommands]
+    (.exc .TypeError .clean)
+
 def anyHoleOpen : Bool :=
-  !conforming true witnessInner || !conforming false witnessHelp || !conforming false witnessType
+  !conforming true witnessInner || !conforming false witnessHelp || !conforming false witnessType ||
+  !conforming true witnessDefault
 
 /-- the statement without the tag escape clause -/
 def RoutingFull : Prop :=
@@ -186,16 +194,18 @@ theorem C03_routing_full_false_if_open (h : anyHoleOpen = true) : ¬ RoutingFull
   have h3 := full false .yaml .parseArgs (.body .parseArgs) (by decide)
     [.knownArgs, .typehintAction, .checkType, .adapt, .typeImport] (by decide)
     (.exc .ModuleNotFoundError .typeImport) (by decide)
-  simp only [anyHoleOpen, witnessInner, witnessHelp, witnessType, h1, h2, h3] at h
+  have h4 := full true .yaml .parseArgs (.body .parseArgs) (by decide)
+    [.defaultsEnv, .getDefaults, .defCommon, .subcommands] (by decide) (.exc .TypeError .clean) (by decide)
+  simp only [anyHoleOpen, witnessInner, witnessHelp, witnessType, witnessDefault, h1, h2, h3, h4] at h
   exact absurd h (by decide)
 
-/-- today at least one of the three is open (all three are: the `example`s below); when the last one
+/-- today at least one of the four is open (all four are: the `example`s below); when the last one
 is repaired in /repo this theorem fails and `RoutingFull` becomes provable -/
 theorem C03_routing_full_false : ¬ RoutingFull := C03_routing_full_false_if_open (by decide)
 
 /-! ## the pipeline model: all inputs -/
 
-/-- C03_model_total (partial form, the three tagged origins excluded).  Whatever
+/-- C03_model_total (partial form, the four tagged origins excluded).  Whatever
 the input makes the stages do — an arbitrary finite sequence of events, each a
 call path of any depth below the method's root region together with either
 "returns normally" or a failure the region at the end of the path is designed to
@@ -264,6 +274,7 @@ example : ∀ top, routePath tables .yaml top (.body .parseArgs) [.common, .prin
 example : witnessInner = .escapes .ArgumentError := by decide
 example : witnessHelp = .exit 2 := by decide
 example : witnessType = .escapes .ModuleNotFoundError := by decide
+example : witnessDefault = .escapes .ArgumentError := by decide
 -- a failure that no region is designed to raise is outside the theorem (and escapes): the open finding about sub-command sections
 example : routePath tables .yaml false (.body .parseString) [.common, .subcommands] (.exc .AttributeError .clean) = .escapes .AttributeError := by decide
 -- a run of the pipeline that ends in the first unabsorbed failure
